@@ -63,6 +63,12 @@ for _name, _isz in (("arrayH-q", 8), ("arrayH-d", 8)):
              ensures=[*BOUNDS, f"len(out[0]) == le_at(data, offset, 2)", f"result == offset + 2 + {_isz} * len(out[0])"],
              covers=["raised is None"])
 
+# boolean arrays convert item by item (one byte each): decided for declared lengths 0..3 (bounded), any buffer and offset
+contract(f"{SER}::DefaultArray.unpack", "arrayH-?.bounded-read", vars={"P": P("arrayH-?"), **IN}, requires=[*PRE, "le_at(data, offset, 2) == n"],
+         instances=[{"n": n} for n in (0, 1, 2, 3)], call="P.unpack(data, offset, out)", raises=None,
+         ensures=[*BOUNDS, "len(out[0]) == n", "result == offset + 2 + n"],
+         covers=["raised is None"], bounded="declared lengths 0..3")
+
 # nested payload: the declared size must be present
 contract(f"{SER}::NestedPayload.unpack", "payload.bounded-read",
          vars={"P": P("payload"), **IN, "CLS": EXPR("GlobalTimeDistributionPayload")}, requires=PRE,
